@@ -363,6 +363,11 @@ class Evaluator:
     def _invoke(self, f, this_lv, args):
         if self.depth > self.max_depth:
             raise Inconclusive("call depth exceeded at " + f["name"])
+        hk = self.hooks.get(f.get("qname", f["name"]))
+        if hk is not None:
+            r = hk(self, f, this_lv, args)
+            if r is not _NOMODEL:
+                return r
         if "body" not in f and (f.get("defaulted") or f.get("implicit")) and f["kind"] in ("ctor", "dtor", "method") \
                 and self.F.T(f.get("parent", -1)) in self.F.records:
             return self.defaulted(f, this_lv, args)
@@ -1182,8 +1187,6 @@ class Evaluator:
         name = f["name"]
         sn = f["sname"]
         base = re.sub(r"<.*", "", name)
-        if name in self.hooks:
-            return self.hooks[name](self, f, this_lv, args)
 
         def val(i):
             a = args[i]
@@ -1268,6 +1271,12 @@ class Evaluator:
                     return this_lv
             if sn in ("operator basic_string_view", "c_str", "data"):
                 return s
+            if sn == "empty" and isinstance(s, Str):
+                if not s.parts:
+                    return True
+                if any((isinstance(p, str) and p) or (isinstance(p, tuple) and p[0] in ("nonempty", "int", "num")) for p in s.parts):
+                    return False
+                return ("b", "empty", s)
             if sn in ("begin", "end", "size", "length", "empty"):
                 return ("fn", "str." + sn, s)
             if sn == "operator=":
@@ -1301,6 +1310,8 @@ class Evaluator:
         # ---- hash
         if ptype.startswith("std::hash<") and sn == "operator()":
             return ("fn", "hash<%s>" % ptype[len("std::hash<"):-1], val(0))
+        if sn == "to_string" and base == "std::to_string":
+            return Str([("int", val(0))])
         if sn in ("stof", "stod", "stold"):
             return ("fn", sn, val(0))
         if base in ("std::move", "std::forward"):
